@@ -398,6 +398,15 @@ def handle : List String → Option String
     else if mode = "model" then some (canon (runPlan E c p batches))
     else if mode = "spec" then some (canon (Qryn.LogQL.Stages.evalPlan E c p (batches.flatten.filter (·.err.isNone))))
     else none
+  | ["c09tags", st] => do
+    -- what GetBreakpoint sees of the modelled stages, and where splitting them again would cut
+    let stages ← if st = "-" then some [] else (st.splitOn ";").mapM stageK?
+    let name : StageTag → String
+      | .line => "line" | .labelFilter => "labelFilter" | .jsonNoParams => "jsonNoParams" | .jsonParams => "jsonParams"
+      | .logfmt => "logfmt" | .regexp => "regexp" | .lineFormat => "lineFormat" | .labelFormat => "labelFormat"
+      | .unwrap => "unwrap" | .drop => "drop"
+    let (ch, internal) := splitPipeline stages
+    some (",".intercalate (stages.map (fun s => name s.tag)) ++ s!"|{ch.length}|{match internal with | some l => toString l.length | none => "none"}")
   | ["c09bp", tags, absent] => do
     let ts ← if tags = "-" then some [] else (tags.splitOn ",").mapM tag?
     let bp := getBreakpoint ts (absent = "1")
